@@ -240,7 +240,7 @@ pub fn run(ctx: &Ctx) {
     ctx.rule("builder-made models (1..6 parameters, functions of arity 1..6 over ordered subsets, invariant functions, N in 1..9, f32/f64) driven through histories of 12 (quick) / 40 (thorough) operations mixing valid updates with misuse: a function or a derivative closure at a random position returning a vector that is empty / one shorter / one longer / much longer than N, derivative indices P, P+1 and far beyond, parameter vectors of length 0, P-1, P+1 and more. Each misuse must return Err (never a panic, never Ok with a mis-shaped matrix); after every operation params(), eval() and every eval_partial_deriv(k) are compared bitwise with the snapshot taken after the last accepted update. non-trivial = history contains at least one misuse operation; distinct = (specification, case)");
     let t = ctx.tier;
     let len = t.pick(12, 40);
-    ctx.run_cases("misuse-histories", t.pick(25000, 150000), t.pick(15.0, 120.0), |r, c, o| case(r, c, o, len));
+    ctx.run_cases("misuse-histories", t.pick(25000, 450000), t.pick(15.0, 900.0), |r, c, o| case(r, c, o, len));
     if t == Tier::Thorough && ctx.replay.is_none() {
         miri_shards(ctx, "C17", 8, "6", "4");
     } else {
